@@ -23,6 +23,18 @@ impl super::Resolver<'_> {
 
 fn static_eval_rq_operator(mut expr: Expr) -> Expr {
     let (name, mut args) = expr.kind.into_rq_operator().unwrap();
+
+    // a function written with `internal` in user code can have any number of parameters:
+    // fold only calls that have the arity of the std operator
+    let arity = match name.as_str() {
+        "std.not" | "std.neg" => 1,
+        _ => 2,
+    };
+    if args.len() != arity {
+        expr.kind = ExprKind::RqOperator { name, args };
+        return expr;
+    }
+
     match name.as_str() {
         "std.not" => {
             if let ExprKind::Literal(Literal::Boolean(val)) = &args[0].kind {
